@@ -1,4 +1,4 @@
-"""Replays MockPatch.tla histories with the real asynq.mock.patch / patch.object on a scratch module (runs inside
+"""Replays MockPatch.tla histories with the real asynq_mock.patch / patch.object on a scratch module (runs inside
 the build under test).  Nesting of with-blocks / decorated functions is realised by recursion: an `enter` of a
 block style opens a real `with` statement (or calls a really decorated function / test-class method) whose body
 replays the following operations until the matching exit operation."""
@@ -12,12 +12,13 @@ devnull = open(os.devnull, "w")
 real_out = os.fdopen(os.dup(1), "w")
 os.dup2(devnull.fileno(), 1)
 sys.stdout = devnull
-os.dup2(devnull.fileno(), 2)
+if not os.environ.get("VERIF_DEBUG"):
+    os.dup2(devnull.fileno(), 2)
 
 from unittest import mock
 
 import asynq
-import asynq.mock
+from asynq import mock_ as asynq_mock  # asynq.mock is the attribute name of this module
 from asynq import asynq as asynq_deco
 
 MODNAME = "c19_scratch_mod"
@@ -25,6 +26,10 @@ MODNAME = "c19_scratch_mod"
 
 class ExitExc(Exception):
     pass
+
+
+class Abort(Exception):
+    """a patch operation itself raised: recorded as that operation's observation, rest of the history skipped"""
 
 
 class Val(object):
@@ -131,8 +136,8 @@ def make_patcher(target, api, repl, k):
         ST.values[k] = Val(k)
         args = [ST.values[k]]
     if api == "str":
-        return asynq.mock.patch(name, *args, **kwargs)
-    return asynq.mock.patch.object(holder(ST.mod), attr, *args, **kwargs)
+        return asynq_mock.patch(name, *args, **kwargs)
+    return asynq_mock.patch.object(holder(ST.mod), attr, *args, **kwargs)
 
 
 def configure(m, repl, k):
@@ -197,6 +202,13 @@ def do_call(target, conv, x, y):
     return {"conv": conv, "reach": c["reach"], "bound": c["bound"], "x": c["x"], "y": c["y"], "result": "agrees" if ok else repr(r)}
 
 
+def observe(case, i):
+    """the slot, and one call through every convention the model lists for this step (x = index, y = step)"""
+    target = case["target"]
+    convs = case["h"][i]["res"]["convs"]
+    return {"slot": slot_token(target), "calls": [do_call(target, c, n + 1, i + 1) for n, c in enumerate(convs)]}
+
+
 def run(case, i, got):
     """replays ops[i:] until the innermost open block is closed; returns (next index, how)"""
     ops = case["h"]
@@ -206,21 +218,27 @@ def run(case, i, got):
         op = o["op"]
         if op == "enter":
             k, style, repl = o["k"], o["style"], o["repl"]
-            patcher = make_patcher(target, case["api"], repl, k)
+            try:
+                patcher = make_patcher(target, case["api"], repl, k)
+                if style == "start":
+                    m = patcher.start()
+            except Exception as e:
+                got[i] = {"raised": "%s: %s" % (type(e).__name__, e)}
+                raise Abort()
             if style == "start":
-                m = patcher.start()
                 ST.stack.append((style, patcher, k))
                 configure(m, repl, k)
-                got[i] = {"slot": slot_token(target)}
+                got[i] = observe(case, i)
                 i += 1
                 continue
             box = {"i": i + 1, "how": "end"}
 
             def body(m, i=i, box=box):
+                box["entered"] = True
                 ST.stack.append((style, patcher, k))
                 if m is not None:
                     configure(m, repl, k)
-                got[i] = {"slot": slot_token(target)}
+                got[i] = observe(case, i)
                 box["i"], box["how"] = run(case, i + 1, got)
                 if box["how"] == "end":
                     cleanup_started()
@@ -245,25 +263,34 @@ def run(case, i, got):
                     Tests().test_it()
             except ExitExc:
                 pass
+            except Abort:
+                raise
+            except Exception as e:
+                at = i if not box.get("entered") else min(box["i"] - 1, len(ops) - 1)
+                got[at] = {"raised": "%s: %s" % (type(e).__name__, e)}
+                raise Abort()
             if box["how"] == "end":
                 return len(ops), "end"
-            got[box["i"] - 1] = {"slot": slot_token(target)}
+            got[box["i"] - 1] = observe(case, box["i"] - 1)
             i = box["i"]
             continue
         if op in ("exit_normal", "exit_exception"):
             return i + 1, op
-        if op == "stop":
-            style, patcher, k = ST.stack.pop()
-            assert style == "start", "model/harness disagree: stop on a %s patch" % style
-            patcher.stop()
-            got[i] = {"slot": slot_token(target)}
-        elif op == "stopall":
-            while ST.stack and ST.stack[-1][0] == "start":
-                ST.stack.pop()
-            asynq.mock.patch.stopall()
-            got[i] = {"slot": slot_token(target)}
-        elif op == "calls":
-            got[i] = {"slot": slot_token(target), "calls": [do_call(target, c["conv"], c["x"], c["y"]) for c in o["res"]["calls"]]}
+        try:
+            if op == "stop":
+                style, patcher, k = ST.stack.pop()
+                assert style == "start", "model/harness disagree: stop on a %s patch" % style
+                patcher.stop()
+            elif op == "stopall":
+                while ST.stack and ST.stack[-1][0] == "start":
+                    ST.stack.pop()
+                asynq_mock.patch.stopall()
+        except AssertionError:
+            raise
+        except Exception as e:
+            got[i] = {"raised": "%s: %s" % (type(e).__name__, e)}
+            raise Abort()
+        got[i] = observe(case, i)
         i += 1
     return len(ops), "end"
 
@@ -286,32 +313,32 @@ def run_case(case):
     try:
         run(case, 0, got)
         cleanup_started()
+    except Abort:
+        got = [g if g is not None else "skipped" for g in got]
     finally:
         mock.patch.stopall()
         sys.modules.pop(MODNAME, None)
     return got
 
 
-def matches(o, g):
-    """prescribed (o['res']) against observed; fields prescribed as 'any' / -1 are not compared"""
+def matches(o, g, step):
+    """prescribed (o['res']) against observed"""
+    if g == "skipped":
+        return True
     if g is None:
         return False
     want = o["res"]
-    if want["slot"] != "any" and want["slot"] != g.get("slot"):
+    if want["slot"] != g.get("slot"):
         return False
-    if o["op"] != "calls":
-        return True
     gc = g.get("calls") or []
-    if len(gc) != len(want["calls"]):
+    if len(gc) != len(want["convs"]):
         return False
-    for w, c in zip(want["calls"], gc):
-        if w["conv"] == "read":
-            if c.get("slot") != w["slot"]:
+    for n, (conv, c) in enumerate(zip(want["convs"], gc)):
+        if conv == "read":
+            if c.get("slot") != want["slot"]:
                 return False
             continue
-        if c.get("reach") != w["reach"] or c.get("x") != w["x"] or c.get("y") != w["y"] or c.get("result") != "agrees":
-            return False
-        if w["bound"] != "any" and c.get("bound") != w["bound"]:
+        if c.get("reach") != want["reach"] or c.get("x") != n + 1 or c.get("y") != step or c.get("result") != "agrees" or c.get("bound") != want["bound"]:
             return False
     return True
 
@@ -325,7 +352,7 @@ def main():
         except BaseException as e:
             out.append({"i": i, "got": "harness exception %s: %s" % (type(e).__name__, e), "diff": [0]})
             continue
-        diff = [j for j, (o, g) in enumerate(zip(c["h"], got)) if not matches(o, g)]
+        diff = [j for j, (o, g) in enumerate(zip(c["h"], got)) if not matches(o, g, j + 1)]
         if diff:
             out.append({"i": i, "got": got, "diff": diff})
     out.append({"n": len(cases)})
